@@ -29,7 +29,7 @@ def plan(tier, seed):
     n3 = ('a', 'b', 'c')
     for k, o in enumerate(orders(n3, 'thorough', seed, 6)):
         specs.append(dict(kind='all', names=n3, order=o, sample=None,
-                          sets=300 if tier == 'quick' else 3000, hashseed=k))
+                          sets=1000 if tier == 'quick' else 3000, hashseed=k))
     n4 = ('a', 'b', 'c', 'd')
     if tier == 'thorough':
         for k, o in enumerate(orders(n4, tier, seed, 24)):
@@ -38,8 +38,8 @@ def plan(tier, seed):
                               sets=2000, hashseed=k))
     else:
         for k, o in enumerate(dict.fromkeys(orders(n4, tier, seed, 6))):
-            specs.append(dict(kind='all', names=n4, order=o, sample=500,
-                              sets=200, sub=k, hashseed=k))
+            specs.append(dict(kind='all', names=n4, order=o, sample=3000,
+                              sets=600, sub=k, hashseed=k))
     meta = dict(
         rule=RULE,
         require=['traversals', 'descendants_checks', 'nx_graphs',
